@@ -401,6 +401,8 @@ def sym_paths(stmts: Sequence[ast.stmt], env: Optional[Dict[str, Affine]] = None
             return [Path(conds, env, stmt.value, "return")]
         if isinstance(stmt, ast.Raise):
             return [Path(conds, env, None, "raise")]
+        if isinstance(stmt, (ast.Continue, ast.Break)):
+            return [Path(conds, env, None, "jump")]
         if isinstance(stmt, (ast.For, ast.While, ast.Try, ast.With)):
             return [Path(conds, env, None, "loop")]
         if isinstance(stmt, ast.If):
